@@ -96,10 +96,15 @@ func (s *generateState) generateType(t schema.Type, selections []ast.Selection, 
 		fields := map[string]string{}
 
 		hasTypename := false
+		// the response key under which __typename is selected (it may be aliased)
+		typenameKey := "__typename"
 		for _, sel := range selections {
 			if field, ok := sel.(*ast.Field); ok {
 				if field.Name.Name == "__typename" {
 					hasTypename = true
+					if field.Alias != nil {
+						typenameKey = field.Alias.Name
+					}
 					break
 				}
 			}
@@ -220,7 +225,7 @@ func (s *generateState) generateType(t schema.Type, selections []ast.Selection, 
 				}
 
 				for _, field := range fields {
-					s.output += `switch base.Typename__ {
+					s.output += `switch base.` + fieldName(typenameKey) + ` {
 						case "` + strings.Join(okTypes, `", "`) + `":
 							if err := json.Unmarshal(b, &s.` + fieldName(field) + `); err != nil {
 								return err
